@@ -1,6 +1,7 @@
 package main
 
 import (
+	"crypto/sha256"
 	"flag"
 	"fmt"
 	"os"
@@ -60,6 +61,8 @@ func main() {
 		os.Exit(cmdRun(os.Args[2:]))
 	case "golden":
 		os.Exit(cmdGolden(os.Args[2:]))
+	case "buildhash":
+		os.Exit(cmdBuildHash(os.Args[2:]))
 	}
 	fmt.Fprintln(os.Stderr, "unknown command")
 	os.Exit(2)
@@ -378,4 +381,53 @@ func dvInconsistent(c *Case) bool {
 		}
 	}
 	return false
+}
+
+// cmdBuildHash: `icecheck buildhash -file <case> [-history]` builds, in THIS fresh process, the
+// batches of the case's build segments in order - all of them with -history, only the last one
+// without - and prints the SHA-256 of the bytes of the LAST one.  The C14 leg runs it twice to see
+// whether process-wide state set up by an earlier build (outside the pooled builder) changes the
+// bytes of a later one; both runs execute the same code, so a uniform change of the output (another
+// compression level, say) is not reported.
+func cmdBuildHash(args []string) int {
+	fs := flag.NewFlagSet("buildhash", flag.ExitOnError)
+	file := fs.String("file", "", "case file")
+	history := fs.Bool("history", false, "build the earlier batches of the case first")
+	_ = fs.Parse(args)
+	f, err := os.Open(*file)
+	if err != nil {
+		fmt.Fprintln(os.Stderr, err)
+		return 2
+	}
+	defer f.Close()
+	cs, err := ParseCases(f)
+	if err != nil || len(cs) != 1 {
+		fmt.Fprintln(os.Stderr, "buildhash: cannot parse case:", err)
+		return 2
+	}
+	c := cs[0]
+	var builds []*SegDef
+	for i := range c.Segs {
+		if c.Segs[i].Kind == "build" {
+			builds = append(builds, &c.Segs[i])
+		}
+	}
+	if len(builds) == 0 {
+		return 2
+	}
+	from := len(builds) - 1
+	if *history {
+		from = 0
+	}
+	var last []byte
+	for _, sd := range builds[from:] {
+		b, err := buildBytes(sd.Docs, c.Norm, sd.Mode)
+		if err != nil {
+			fmt.Println("err")
+			return 0
+		}
+		last = b
+	}
+	fmt.Printf("%x %d\n", sha256.Sum256(last), len(last))
+	return 0
 }
